@@ -779,8 +779,38 @@ pub async fn run(ctx: &Ctx) {
     let deadline = plan.heal_at_ms.max(last_op) + bound;
     let has_close_ops = !close_ops.is_empty();
     let mut complete_at: Option<u64> = None;
+    // Establishment is the first part of "the prefix grows ... within bounded time", and it has a bound of its own that
+    // does not depend on the volume of data: once both DTLS transports are Connected and the network delivers reliably,
+    // the pending T1 timer (INIT or COOKIE-ECHO; its RTO never exceeds rto_max) fires at most rto_max later and the
+    // remaining exchange takes two round trips. Observed through the negotiated channels, which report Open at
+    // establishment. Nothing is demanded once any side reported a close.
+    let negotiated_ids: Vec<u16> = specs.iter().filter(|sp| !sp.inband).map(|sp| sp.id).collect();
+    let rtt_ms = (plan.latency_us[0] + plan.latency_us[1]) / 1000 + 2;
+    let mut dtls_both_at: Option<u64> = None;
+    let mut setup_judged = false;
     loop {
         let now = ctx.now_ms();
+        if dtls_both_at.is_none() && dtls_state_name(&ea.dtls) == "Connected" && dtls_state_name(&eb.dtls) == "Connected" {
+            dtls_both_at = Some(now);
+        }
+        if let (false, Some(t0)) = (setup_judged, dtls_both_at) {
+            let rto_cap = rto_max.max(plan.knob("rto_initial_ms", 3000) as u64).max(plan.knob("rto_min_ms", 1000) as u64);
+            let setup_deadline = t0.max(plan.heal_at_ms) + 2 * rto_cap + 4 * rtt_ms + 1500;
+            if now >= setup_deadline {
+                setup_judged = true;
+                let s = st.lock().unwrap();
+                let closed = s.any_close || sides.iter().any(|sd| sd.sctp.close_reason().is_some()) || dtls_state_name(&ea.dtls) != "Connected" || dtls_state_name(&eb.dtls) != "Connected";
+                let unopened: Vec<String> = s.recv.iter().filter(|((_, ch), rs)| negotiated_ids.contains(ch) && rs.opens == 0).map(|((side, ch), _)| format!("{} ch{ch}", if *side == 0 { "A" } else { "B" })).collect();
+                drop(s);
+                if !closed && !unopened.is_empty() && !has_close_ops {
+                    let mut u = unopened;
+                    u.sort();
+                    ctx.violate("C01.complete", format!("{} virtual ms after the network healed and both DTLS transports were Connected (heal_at={} ms, DTLS at {} ms; rto_max {} ms, RTT {} ms) the SCTP association is still not established for {} and no side reported a close: nothing can be delivered", now - t0.max(plan.heal_at_ms), plan.heal_at_ms, t0, rto_max, rtt_ms, u.join(", ")));
+                } else {
+                    ctx.stat("probe.setup_judged", 1);
+                }
+            }
+        }
         let (running, all) = {
             let s = st.lock().unwrap();
             let mut all = true;
